@@ -41,15 +41,24 @@ theorem skel_create : Skel.RepoCreatePortMapping = ["r.Create", "r.AddMappingToL
 theorem skel_model : Skel.Activate = ["c.CanBeActivatedBy"] ∧ Skel.Revoke = [] ∧
     Skel.GenerateUnique = ["g.Generate", "checkExists"] := by decide
 
-/-- The claim key lives under the prefix that the hybrid storage shares between nodes
-("tunnox:runtime:conncode:"), and can never be mistaken for a code record. -/
+/-- "Through different nodes": in a cluster every node has a HybridStorage that serves a key from the cache all
+nodes share only if the key starts with an entry of its routing tables (`hybrid.DefaultConfig()`, regenerated
+here).  `SetNX` looks at `SharedPrefixes` only (`getCacheForKey`).  The claim key, both copies of the code record,
+the per-target index, the mapping ID marker, the mapping record and its lists are all routed to the shared cache;
+the claim key can never be mistaken for a code record; the default quota is the documented 50. -/
 theorem claim_key_shared :
-    Tunnox.PredPrelude.hasPrefix constants.KeyPrefixRuntimeConnectionCodeClaim "tunnox:runtime:conncode:" = true ∧
-    Tunnox.PredPrelude.hasPrefix constants.KeyPrefixRuntimeConnectionCodeByCode "tunnox:runtime:conncode:" = true ∧
+    c06hybrid.DefaultConfig.SharedPrefixes.any (fun pre => Tunnox.PredPrelude.hasPrefix constants.KeyPrefixRuntimeConnectionCodeClaim pre) = true ∧
+    c06hybrid.DefaultConfig.SharedPrefixes.any (fun pre => Tunnox.PredPrelude.hasPrefix constants.KeyPrefixRuntimeConnectionCodeByCode pre) = true ∧
+    c06hybrid.DefaultConfig.SharedPrefixes.any (fun pre => Tunnox.PredPrelude.hasPrefix constants.KeyPrefixRuntimeConnectionCodeByID pre) = true ∧
+    c06hybrid.DefaultConfig.SharedPrefixes.any (fun pre => Tunnox.PredPrelude.hasPrefix constants.KeyPrefixIndexConnectionCodeByTarget pre) = true ∧
+    c06hybrid.DefaultConfig.SharedPrefixes.any (fun pre => Tunnox.PredPrelude.hasPrefix "tunnox:id:used:pmap" pre) = true ∧
+    c06hybrid.DefaultConfig.SharedPersistentPrefixes.any (fun pre => Tunnox.PredPrelude.hasPrefix (constants.KeyPrefixPortMapping ++ ":") pre) = true ∧
+    c06hybrid.DefaultConfig.SharedPersistentPrefixes.any (fun pre => Tunnox.PredPrelude.hasPrefix constants.KeyPrefixMappingList pre) = true ∧
+    c06hybrid.DefaultConfig.SharedPersistentPrefixes.any (fun pre => Tunnox.PredPrelude.hasPrefix (constants.KeyPrefixClientMappings ++ ":") pre) = true ∧
     Tunnox.PredPrelude.hasPrefix constants.KeyPrefixRuntimeConnectionCodeClaim constants.KeyPrefixRuntimeConnectionCodeByCode = false ∧
     Tunnox.PredPrelude.hasPrefix constants.KeyPrefixRuntimeConnectionCodeByCode constants.KeyPrefixRuntimeConnectionCodeClaim = false ∧
     Tunnox.PredPrelude.hasPrefix constants.KeyPrefixRuntimeConnectionCodeClaim constants.KeyPrefixRuntimeConnectionCodeByID = false ∧
-    0 < conncode.codeClaimTTL := by decide
+    0 < conncode.codeClaimTTL ∧ conncode.DefaultConfig.MaxActiveMappingsPerClient = 50 := by decide
 
 /-- The translated validity predicate (current source text of `IsValidForActivation` / `CanBeActivatedBy`):
 a code can be activated iff it is not revoked, not used and its period is not over. -/
@@ -206,6 +215,22 @@ theorem C06_generateUnique (ex : Nat → Bool) (fuel : Nat) (cands : List Nat) (
       split at h
       · have := ih xs h; exact ⟨this.1, List.mem_cons_of_mem _ this.2⟩
       · rename_i hx; simp at h; subst h; exact ⟨by simpa using hx, List.mem_cons_self⟩
+
+/-- A later `CreateConnectionCode` never hands out, and so never overwrites the record of, a code that still
+exists — whatever the random source proposes: the table of codes stays duplicate-free and keeps every code. -/
+theorem C06_create_keeps (tbl cands : List Nat) (h : tbl.Nodup) :
+    (createOp tbl cands).Nodup ∧ ∀ c ∈ tbl, c ∈ createOp tbl cands := by
+  unfold createOp
+  cases hg : generateUnique (fun c => tbl.contains c) 100 cands with
+  | none => exact ⟨h, fun c hc => hc⟩
+  | some c =>
+    have hc : tbl.contains c = false := (C06_generateUnique _ _ _ _ hg).1
+    have hn : c ∉ tbl := by simpa using hc
+    exact ⟨List.nodup_cons.mpr ⟨hn, h⟩, fun x hx => List.mem_cons_of_mem _ hx⟩
+
+example : holdsUniq 2 ["new", "ok", "new", "exhausted", "conflict", "ok"] [1, 1] = true := by decide
+example : holdsUniq 2 ["new", "ok", "dup", "ok"] [2] = false := by decide
+example : holdsUniq 2 ["new", "exhausted"] [0] = false := by decide
 
 /-! ## The defect that was repaired: without the claim two overlapping activations both succeed -/
 
